@@ -361,6 +361,35 @@ func emitRoutes(p *pkgInfo) {
 	fmt.Println("Definition router_opts : list (string * string) := [")
 	fmt.Println(strings.Join(os_, ";\n"))
 	fmt.Println("].")
+	fmt.Println()
+	_, infos := analyse(p)
+	fmt.Println("(* handler, storage request types it can construct, builds evaluator requests?, ByName parameter names *)")
+	fmt.Println("Definition handler_requests : list hreq := [")
+	fmt.Println(strings.Join(routeHreqRows(infos), ";\n"))
+	fmt.Println("].")
+}
+
+// routeHreqRows: per registered handler, the protocol.StorageRequest types it constructs (transitively through the
+// package's own functions), whether it builds EvaluatorRequests, and the path parameter names it reads (C16).
+func routeHreqRows(infos []*hinfo) []string {
+	var hrows []string
+	for _, h := range infos {
+		var rt, ps []string
+		for k := range h.reqTypes {
+			rt = append(rt, coqStr(k))
+		}
+		for k := range h.params {
+			ps = append(ps, coqStr(k))
+		}
+		sort.Strings(rt)
+		sort.Strings(ps)
+		ev := "false"
+		if h.eval {
+			ev = "true"
+		}
+		hrows = append(hrows, fmt.Sprintf("  HReq %s %s %s %s", coqStr(h.name), coqList(rt), ev, coqList(ps)))
+	}
+	return hrows
 }
 
 // ---------------------------------------------------------------------------------------------
